@@ -35,29 +35,9 @@ from ..drivers import ramdrv
 PID = 'E08'
 # Mismatches on the unchanged tree triaged as genuine defects of skoolkit, reported to the lead. Until the lead records them in
 # known_findings.json they print CANDIDATE-FINDING and do not fail the check (VERIF_E08_STRICT=1: they do).
-CANDIDATES = {
-    'default:szx:reg-i':
-        "tap2sna.py --ram load=1,32768 game.tap out.szx: the I register of the SZX snapshot is 0; the documentation (man page, REGISTERS) "
-        "promises the default i=63 (the .z80 output has 63): write_snapshot() adds the defaults for .z80 only",
-    'default:szx:reg-iy':
-        "tap2sna.py --ram load=1,32768 game.tap out.szx: the IY register of the SZX snapshot is 0; the documentation (man page, REGISTERS) "
-        "promises the default iy=23610 (the .z80 output has 23610): write_snapshot() adds the defaults for .z80 only",
-    'move-src-past-top:snapshot-unreadable':
-        "tap2sna.py --ram load=1,65534 --ram move=65535,2,32768 game.tap out.z80 exits 0 but writes a corrupt snapshot (a RAM page of "
-        "16383 bytes): move() copies with list slices, a source block reaching past 65535 shortens the 64K list and shifts all memory "
-        "above the destination down",
-    'move-src-past-top:mem-frame':
-        "tap2sna.py --ram load=... --ram move=SRC,N,DEST with SRC+N > 65536 (non-simulated): the list slice copy shortens the 64K list, all "
-        "memory above DEST+N is shifted down - cells the operation does not name change",
-    'sim128:slice-assign:tool-error':
-        "tap2sna.py -c machine=128 --ram sysvars game.tap out.z80 (also --ram move=32512,256,32768 and --ram patch=32768,patch.bin without a page): "
-        "after the simulated LOAD the tool stops with \"unsupported operand type(s) for //: 'slice' and 'int'\" - the 128K memory object "
-        "(pagingtracer.Memory) has no slice assignment, which sysvars and the unpaged move / patch use",
-    'move-src-past-top:mem-value':
-        "tap2sna.py --ram load=... --ram move=SRC,N,DEST with SRC+N > 65536 (non-simulated): memory above the destination is shifted",
-}
+CANDIDATES = {}          # the candidates found while building are recorded in known_findings.json (one repaired, two families open)
 STRICT = os.environ.get('VERIF_E08_STRICT') == '1'
-FIELDS = ('mach', 'sim', 'fmt', 'top', 'base', 'blocks', 'ops', 'opts', 'experr', 'err', 'obs', 'readerr', 'outok', 'omach', 'dflags',
+FIELDS = ('stop', 'mach', 'sim', 'fmt', 'top', 'base', 'blocks', 'ops', 'opts', 'experr', 'err', 'obs', 'readerr', 'outok', 'omach', 'dflags',
           'regs', 'hw', 'breg', 'bhw')
 
 
@@ -105,6 +85,10 @@ def fixed_cases():
         g(9021, [ld(4, 0x8000)]),                                                        # no such block
         g(9022, [ld(1, 0x8000)], out='sna', experr='unsupported-output-format'),
         g(9023, [ld(1, 0x8000)], sel={'sum': 'bad'}, experr='checksum-mismatch'),
+        g(9024, [ld(2, 0x8000)], sel={'stop': 3}),                                       # the last block before the stop
+        g(9025, [ld(1, 0x8000), ld(3, 0x9000)], sel={'stop': 3}),                        # the tape stops at block 3: it cannot be loaded
+        g(9026, [ld(1, 0x8000)], sel={'zip': 1}),
+        g(9027, [ld(1, 0x8000)], sel={'zip': 0}, fmt='szx'),
     ]
     s128 = lambda n, ops, **kw: g(n, ops, kind='sim128', mach=128, sim=1, **kw)
     out += [
@@ -342,7 +326,8 @@ def run(tier):
                 key = ('default:%s:%s' % (g['fmt'], clause)) if not g['sim'] and not sets_reg(g, name) else 'reg:%s:%s:%s' % (g['kind'], g['fmt'], name)
             elif clause.startswith('state-'):
                 key = 'state:%s:%s:%s' % (g['kind'], g['fmt'], clause[6:])
-            elif 'move-src-past-top' in cl and clause in ('snapshot-unreadable', 'mem-frame', 'mem-value'):
+            elif 'move-src-past-top' in cl and (clause in ('snapshot-unreadable', 'mem-frame', 'mem-value') or
+                                                (clause == 'tool-error' and 'index out of range' in rec['err'])):
                 key = 'move-src-past-top:%s' % clause
             elif clause.startswith('mem-') or clause.startswith('call-'):
                 kinds = sorted(set(o['k'] for o in g['ops']))
